@@ -439,7 +439,16 @@ def pySpace (c : Char) : Bool :=
   || inR c 0x2000 0x200A || c.toNat == 0x2028 || c.toNat == 0x2029 || c.toNat == 0x202F
   || c.toNat == 0x205F || c.toNat == 0x3000
 
-def pyStrip (s : Str) : Str := ((s.dropWhile pySpace).reverse.dropWhile pySpace).reverse
+/-- `str.rstrip()` -/
+def stripEnd : Str → Str
+  | [] => []
+  | c :: cs =>
+    match stripEnd cs with
+    | [] => if pySpace c then [] else [c]
+    | r => c :: r
+
+/-- `str.strip()` -/
+def pyStrip (s : Str) : Str := stripEnd (s.dropWhile pySpace)
 
 def asciiLower (c : Char) : Char := if inR c 0x41 0x5A then Char.ofNat (c.toNat + 32) else c
 
@@ -596,12 +605,14 @@ def classifyUnsigned (u : Str) : Option Str :=
     negates the value (`neg`), which on a normalised lexical form puts the sign back in front -/
 def readNumeric (cell : Str) : Option Term :=
   match cell with
-  | '+' :: u =>
-    match classifyUnsigned u with
-    | some d => some (.typed (if d = xsdInteger then '+' :: u else u) d)
-    | none => none
-  | '-' :: u => (classifyUnsigned u).map (fun d => .typed ('-' :: u) d)
-  | u => (classifyUnsigned u).map (fun d => .typed u d)
+  | [] => none
+  | c :: u =>
+    if c = '+' then
+      match classifyUnsigned u with
+      | some d => some (.typed (if d = xsdInteger then cell else u) d)
+      | none => none
+    else if c = '-' then (classifyUnsigned u).map (fun d => .typed cell d)
+    else (classifyUnsigned cell).map (fun d => .typed cell d)
 
 /-- the escapes admitted by STRING_LITERAL1 (`'`) / STRING_LITERAL2 (`"`) and `decodeUnicodeEscape` -/
 def unescChar (q e : Char) : Option Char :=
@@ -657,24 +668,32 @@ def readLiteral (q : Char) (r : Str) : Except Err Term :=
       | _ => .error .parse
     | _ => .error .parse
 
-/-- `EMPTY | TERM` on one tab-separated cell, then `convertTerm` -/
+/-- `NumericLiteral | BooleanLiteral` on a whole cell -/
+def readBare (cell : Str) : Except Err Cell :=
+  if cell = sTrue then .ok (some (.typed sTrue xsdBoolean))
+  else if cell = sFalse then .ok (some (.typed sFalse xsdBoolean))
+  else
+    match readNumeric cell with
+    | some t => .ok (some t)
+    | none => .error .parse
+
+/-- `EMPTY | TERM` on one tab-separated cell, then `convertTerm`
+    (`TERM = RDFLITERAL | IRIREF | BLANK_NODE_LABEL | NumericLiteral | BooleanLiteral`: the first
+    character decides which alternative can match) -/
 def readCell (cell : Str) : Except Err Cell :=
   match cell with
   | [] => .ok none
-  | '"' :: r => (readLiteral '"' r).map some
-  | '\'' :: r => (readLiteral '\'' r).map some
-  | '<' :: r =>
-    match scanIri r with
-    | some (i, []) => .ok (some (.iri i))
-    | _ => .error .parse
-  | '_' :: ':' :: l => if validLabel l then .ok (some (.bnode l)) else .error .parse
-  | _ =>
-    if cell = sTrue then .ok (some (.typed sTrue xsdBoolean))
-    else if cell = sFalse then .ok (some (.typed sFalse xsdBoolean))
-    else
-      match readNumeric cell with
-      | some t => .ok (some t)
-      | none => .error .parse
+  | c :: r =>
+    if c = '"' ∨ c = '\'' then (readLiteral c r).map some
+    else if c = '<' then
+      match scanIri r with
+      | some (i, []) => .ok (some (.iri i))
+      | _ => .error .parse
+    else if c = '_' then
+      match r with
+      | ':' :: l => if validLabel l then .ok (some (.bnode l)) else .error .parse
+      | _ => .error .parse
+    else readBare cell
 
 def readCells : List Str → Except Err Row
   | [] => .ok []
